@@ -263,6 +263,42 @@ def eval_fp_cases(ck, name, cases):
     return ids_of(m.group(1)), out
 
 
+PIPE = {"line_filter": "PLineFilter", "label_filter": "PLabelFilter", "json": "PJson", "json_params": "PJsonParams", "logfmt": "PLogfmt",
+        "regexp": "PRegexp", "line_format": "PLineFormat", "label_format": "PLabelFormat", "unwrap": "PUnwrap", "drop": "PDrop"}
+PIPE_STAGES = ("line_filter", "label_filter", "parser", "line_format", "label_format", "unwrap", "drop")
+
+
+def internal_pipe_kinds(c):
+    """pipeline-stage kinds of the in-process chain as planned (the stages before the aggregators / limit)"""
+    out = []
+    for s in c["chain"]:
+        if s["k"] not in PIPE_STAGES:
+            break
+        if s["k"] == "parser":
+            out.append("json" if s["op"] == "json" and not s.get("params") else "json_params" if s["op"] == "json" else "logfmt" if s["op"] == "logfmt" else "regexp")
+        else:
+            out.append(s["k"])
+    return out
+
+
+def eval_plan_cases(ck, name, cases):
+    rows = []
+    for c in cases:
+        rows.append("{| q_id := %d; q_absent := %s; q_pipes := %s; q_bp := %d; q_internal := %s |}" % (
+            c["id"], "true" if c.get("absent") else "false", coq_list([PIPE[k] for k in c.get("pipes") or []]),
+            c["bp"], coq_list([PIPE[k] for k in internal_pipe_kinds(c)])))
+    txt = (PRELUDE + "Definition cases : list plancase := [\n  " + ";\n  ".join(rows) + "].\n"
+           "Definition M := Eval vm_compute in plan_mismatches cases.\nPrint M.\n")
+    rc, out = ck.coq_eval(name, txt)
+    if rc != 0:
+        return None, out
+    flat = " ".join(out.split())
+    m = re.search(r"M = \[(.*?)\]\s*: list Z", flat)
+    if not m:
+        return None, out
+    return ids_of(m.group(1)), out
+
+
 # ------------------------------------------------------------------------------------------ known findings
 def panic_mode():
     """how a stage panic ends, read from the source: 'entry' when TamePanic is deferred directly (recover works),
@@ -303,6 +339,8 @@ def classify(c, code):
         first_parser = kinds.index("parser")
         if any(k in dropping for k in kinds[first_parser + 1:]):
             return "error-entry-filtered-out"
+    if code == 2 and any(s["k"] == "lra" and s.get("fn") == "absent_over_time" for s in c["chain"]):
+        return "absent-first-bucket"
     if code in (2, 3) and "label_format" in kinds:
         return "label-format-stale-fingerprint"
     if code == 3 and collide_kv(c):
@@ -377,6 +415,17 @@ def run_cases(ck, cases, label):
         c = min((byid[i] for i in mism), key=size_of)
         ck.violation({"property": PID, "kind": "model/implementation disagree; the reference semantics still accepts every output",
                       "query": c["query"], "case": slim(c), "broken": "correspondence InternalEngine.run_chain vs internal_planner"}, no_input=True)
+    planned = [c for c in chain_cases if c["out"]["err"] not in ("parse",) and (c.get("chain") or c["out"]["err"] == "nosplit") and not (c["out"]["err"] == "plan" and not c.get("chain"))]
+    if planned:
+        m, out = eval_plan_cases(ck, "C09_%s_plan" % label, planned)
+        if m is None:
+            ck.obligation("%s: plan cases evaluated inside Coq" % label, False, out[-2000:])
+        else:
+            ck.obligation("%s: GetBreakpoint and the split of the pipeline = model get_breakpoint / internal_pipes on %d planned queries" % (label, len(planned)), not m, "case ids %s" % m[:10])
+            if m:
+                c = [c for c in planned if c["id"] in m][0]
+                ck.violation({"property": PID, "kind": "split point differs from the model of GetBreakpoint/breakScript", "query": c["query"],
+                              "pipes": c.get("pipes"), "bp": c["bp"], "internal": internal_pipe_kinds(c)}, no_input=True)
     if fp_cases:
         m, out = eval_fp_cases(ck, "C09_%s_fp" % label, fp_cases)
         if m is None:
